@@ -367,6 +367,46 @@ def aligned_violation(kind, b, world, before, given):
     return None
 
 
+def nearly_full_map(chk):
+    """the far end of auto_channel_exists: an EMG block that holds every channel of the 16-bit range from 0 up but ONE
+    (32 767 signals).  The next automatic add must find exactly that channel; the one after it finds none, raises
+    ValueError and leaves the block as it was.  (Only the oracle: the pigeonhole argument is Coq's.)"""
+    import numpy as np
+    from basictdf.tdfEMG import EMG, EMGTrack
+    hi = HI["EM"]
+    for free in ((hi - 1, hi - 2) if chk.tier == "quick" else (hi - 1, hi - 2, 0, 12345)):
+        e = EMG(1000, 1)
+        z = np.zeros(1, dtype="<f4")
+        what = {"kind": "EM", "channels_in_use": "0..%d without %d" % (hi, free)}
+        chk.note_case(("nearly full map", free), True)
+        chk.count("EMG block with one free channel left in 0..32767")
+        try:
+            for c in range(0, hi + 1):
+                if c != free:
+                    e.addSignal(EMGTrack("s%d" % c, z), channel=c)
+            e.addSignal(EMGTrack("auto", z))
+            got = int(e._emgMap[-1])
+        except Exception as x:
+            chk.violation("C15 EM: with every channel of 0..%d in use but %d, an automatic add fails: %s" % (hi, free, common.exc_info(x)), what, True)
+            return
+        if got != free or len(set(int(c) for c in e._emgMap)) != len(e._emgMap):
+            chk.violation("C15 EM: with every channel of 0..%d in use but %d, the automatic add took channel %d" % (hi, free, got), what, True)
+            return
+        n = len(e._emgMap)
+        try:
+            e.addSignal(EMGTrack("one too many", z))
+            chk.violation("C15 EM: an automatic add into a block that uses all of 0..%d was accepted with channel %r" % (hi, int(e._emgMap[-1])), what, True)
+            return
+        except ValueError:
+            pass
+        except Exception as x:
+            chk.violation("C15 EM: an automatic add into a full block raised %s, not ValueError" % common.exc_info(x), what, True)
+            return
+        if len(e._emgMap) != n or len(e._signals) != n:
+            chk.violation("C15 EM: the refused add into a full block changed it (%d channels, %d signals, were %d)" % (len(e._emgMap), len(e._signals), n), what, True)
+            return
+
+
 def run(chk):
     rng = common.rng_for(chk.seed, "C15")
     n = 900 if chk.tier == "quick" else 12000
@@ -377,7 +417,7 @@ def run(chk):
                 "constructor-filled, filled through the API, or decoded from bytes: add with automatic / explicit channel (free, "
                 "taken, at and beyond both ends of the 16-bit channel field), add of a non-item, remove by label / index (-n-2..n+2) / item (present, absent), remove_platforms with lists of items and indices, add_platforms with and "
                 "without channels, the two `platforms = ...` setters, and for constructor-filled blocks the caller going on to use the list he passed; after EVERY call: both lists, the (channel, item) view, the "
-                "channel map parsed from the encoded bytes, nBytes, and the decode of the encoding; non-trivial = >= 2 calls")
+                "channel map parsed from the encoded bytes, nBytes, and the decode of the encoding; plus EMG blocks holding all of 0..32767 but one channel (automatic add finds it; the next is refused and changes nothing); non-trivial = >= 2 calls")
     # scripted: both ends of the 16-bit channel field, explicit and automatic
     def ex(c):
         return lambda w: ("add_explicit",) + w.item("e", 1) + (c,)
@@ -415,6 +455,7 @@ def run(chk):
                               (kind, j, what["calls"][j], exc, cmap, [x[1] for x in items], mexc, ms[1], [x[1] for x in ms[2]]),
                               dict(what, correspondence="coq/Model/BlockAPI.v c_step"), False)
                 break
+    nearly_full_map(chk)
 
 
 def replay(chk, path):
